@@ -652,7 +652,7 @@ impl Property for C16 {
             .boxed()
     }
     fn budget(&self, tier: Tier) -> Budget {
-        Budget::new(tier.pick(8_000, 300_000), tier.pick(8, 16)).min_nontrivial(tier.pick(300, 10_000)).case_timeout(300).shrink(3000, 120)
+        Budget::new(tier.pick(5_000, 300_000), tier.pick(8, 16)).min_nontrivial(tier.pick(200, 10_000)).case_timeout(300).shrink(3000, 120)
     }
     fn rule(&self) -> String {
         "generated (spsc|mpsc with 1-3 writer handles, push scripts with 0/1/20/100-row batches, rotation threshold, reader drains or leaves early, \
